@@ -173,3 +173,38 @@ PROPS["C10"] = dict(
     min_labels=dict(quick=dict(double_node=30000, string_node=30000, increment=30000, setters=15000)),
     assumptions=["strings for get_double are drawn from the decimal subset of strtod's grammar (no hex floats / inf / nan spellings, which the header does not mention)"],
 )
+
+PROPS["C11"] = dict(
+    harness="C11_strings.cpp", level="exploration",
+    technique="stateful model-based property testing (byte-string model) of create/set histories with lengths steered across the inline-storage threshold, injected allocation failure, ASan + exact allocation accounting; exhaustive length triples 0..39",
+    level_text="after creation and each of up to 30 set_string / set_string_len calls (arbitrary bytes incl. NUL and >=0x80, sources in exact-size heap blocks) "
+               "length, bytes and terminator are compared with a byte-string model; equality with a fresh node, deep copy and serialisation (through the "
+               "independent parser) must carry all bytes; negative lengths and a failed allocation must fail and leave the contents intact; every length "
+               "triple a->b->c in 0..39 is enumerated",
+    level_note="storage transitions are observed through ASan (use after free, overflow) and the live-allocation delta, not by reading private fields",
+    rule="history of sets; non-trivial = >=2 crossings of the 7/8-byte inline threshold or grow -> shrink to 0 -> grow; distinct by hash of the operation list",
+    quick=[dict(mode="hist", cases=120000, workers=8),
+           dict(mode="lens", enum=True, size=64000, workers=4)],
+    thorough=[dict(mode="hist", cases=12000000, workers=16),
+              dict(mode="lens", enum=True, size=64000, workers=4),
+              dict(mode="hist", fuzz=True, secs=240, jobs=8, max_len=512)],
+    min_labels=dict(quick=dict(two_threshold_crossings=30000, grow_shrink0_grow=10000, failed_set=20000)),
+    assumptions=["lengths <= 5000 (the code refuses only >= INT_MAX-1)"],
+)
+
+PROPS["C07"] = dict(
+    harness="C07_array.cpp", level="exploration",
+    technique="stateful model-based property testing (vector-with-null-gaps model, element identity and destruction tracking through user-data callbacks) with boundary-biased and SIZE_MAX-adjacent arguments; exhaustive 6-step operation sequences on tiny arrays; ASan",
+    level_text="after every operation of a generated history (append, put/insert at, inside, at and beyond the end, delete ranges incl. overflowing counts, "
+               "shrink, sort, binary search, reads past the end and at huge indices; initial capacity 0..40) the length, the identity of every element "
+               "and the set of destroyed elements equal those of a list model; refused operations must change nothing and leave the value with the caller",
+    level_note="indices in (len+600, SIZE_MAX/8) are not generated: whether a multi-GiB realloc succeeds is the machine's answer; >= SIZE_MAX/8 must be refused",
+    rule="operation history on one array; non-trivial = a reallocation happened AND the history has a null gap, an overwrite of an occupied slot or a multi-element delete; distinct by hash of the operation list",
+    quick=[dict(mode="hist", cases=100000, workers=8),
+           dict(mode="small", enum=True, size=46656, workers=4)],
+    thorough=[dict(mode="hist", cases=8000000, workers=16),
+              dict(mode="small", enum=True, size=46656, workers=4),
+              dict(mode="hist", fuzz=True, secs=240, jobs=8, max_len=512)],
+    min_labels=dict(quick=dict(null_gap=20000, refused=20000, realloc=20000, overwrite=15000, sort=10000, bsearch=3000, del_range=4000, huge_index=8000, zero_capacity=10000)),
+    assumptions=["elements are int nodes or null; the comparator orders by value with nulls first"],
+)
